@@ -3,22 +3,29 @@
 (* under a view that keeps what decides the future of the session:         *)
 (* encoder side: framing, bytes still to push, bytes of the message in     *)
 (*   progress, open block, free room, the layout (frame ends) of the       *)
-(*   finished part and how much of it the reader has taken; the content of *)
+(*   finished part and how much of it the reader has taken, whether a push *)
+(*   of the message in progress was accepted in part; the content of       *)
 (*   finished frames is dropped;                                           *)
 (* decoder side: the view of Gen_CobsDec plus the class of the last call.  *)
 (* Each encoder line also carries what the driver must find when it        *)
 (* completes the session from there ("xfin").                              *)
 EXTENDS MC_CodecOps, Json
-VARIABLE hist
+VARIABLES hist,
+          part      \* ghost: a push of the message in progress was accepted only in part.  The design reaches the
+                    \* same state as by a smaller push that was accepted whole; the code need not (it keeps its
+                    \* own count of the message in progress), so the export continues from both.
 CONSTANT HistD      \* longest exported decoder behaviour
-GenInit == XInit /\ hist = <<obs>>
-GenNext == XNext /\ hist' = Append(hist, obs')
-GenSpec == GenInit /\ [][GenNext]_<<allvars, hist>>
+GenInit == XInit /\ hist = <<obs>> /\ part = FALSE
+GenNext == /\ XNext /\ hist' = Append(hist, obs')
+           /\ part' = IF obs'.a = "push" /\ obs'.exp.ret = "ok" /\ obs'.exp.n < obs'.arg.k THEN TRUE
+                      ELSE IF obs'.a \in {"next", "delete"} THEN FALSE
+                      ELSE part
+GenSpec == GenInit /\ [][GenNext]_<<allvars, hist, part>>
 BoundG == IF mode = "enc" THEN BoundE /\ Len(hist) <= 16
           ELSE IF mode = "arr" THEN Len(hist) <= 12
           ELSE IF mode = "size" THEN BoundD /\ Len(hist) <= 14
           ELSE BoundD /\ Len(hist) <= HistD
-SkelE == <<K, Rest, DropN(out, pre), run, code, cap - Len(out) - code, st, marks, pre, cons, left>>
+SkelE == <<K, Rest, DropN(out, pre), run, code, cap - Len(out) - code, st, marks, pre, cons, left, part>>
 SkelD == <<K, DropN(stream, fedn), DropN(reg, pos), curr - pos, dlen, dmsg, dcode, cpos, last = "nobuf", lost, fs = fedn,
            last = "reset">>
 Skel  == <<mode, IF IsDec THEN SkelD ELSE SkelE>>
